@@ -84,6 +84,26 @@ func TestChanSim(t *testing.T) {
 		if !rr.Deadlock {
 			t.Fatalf("deadlock: not detected")
 		}
+		q := zzchan.NewQueue(2)
+		total := 0
+		run("cond-queue", sc, func() {
+			for i := 1; i <= 6; i++ {
+				q.Put(i)
+			}
+		}, func() {
+			for i := 0; i < 3; i++ {
+				total += q.Get()
+			}
+		}, func() {
+			for i := 0; i < 3; i++ {
+				v := q.Get()
+				simrt.Yield("x")
+				_ = v
+			}
+		})
+		if total < 6 || total > 15 {
+			t.Fatalf("cond-queue: total %d", total)
+		}
 		var a, l1, l2 int
 		run("closed", sc, func() { a, ok, l1, l2 = zzchan.ClosedRecv() })
 		if a != 7 || ok || l1 != 2 || l2 != 0 {
